@@ -326,13 +326,45 @@ Proof.
   unfold measure, flush_fuel. lia.
 Qed.
 
+(* --------------------------------------------------------- send_continue --- *)
+
+Lemma send_continue_spec c ch ans : cfg_ok c -> cinv ch ->
+  let w := send_continue c ch ans in
+  cinv (w_chan w) /\
+  cabs ch ++ continue_payload = (match w_flush w with Some f => f_wire f | None => [] end) ++ cabs (w_chan w) /\
+  w_stop w = Done.
+Proof.
+  intros Hc (Hf & Hl & Ht). cbv zeta. unfold send_continue.
+  destruct (lastw_split _ Hl) as (l' & o & El). rewrite El.
+  rewrite (match_app_one l' (OB o)), last_app_one.
+  assert (Ho : inv o).
+  { rewrite El in Hf. apply Forall_app in Hf as [_ Hx]. inversion Hx; subst. assumption. }
+  destruct (append_spec (c_strbuf_limit c) (c_overflow c) o continue_payload Ho) as (o' & H1 & H2 & H3).
+  rewrite H1, set_last_app.
+  set (ch1 := mkchan (l' ++ [OB o']) (total_outbufs_len ch + lenZ continue_payload)
+                     (current_outbuf_count ch + lenZ continue_payload)).
+  assert (Hc1 : cabs ch1 = cabs ch ++ continue_payload).
+  { unfold cabs. cbn [outbufs ch1]. rewrite El, !map_app, !concat_app. cbn [map concat babs].
+    rewrite !app_nil_r, H3, app_assoc. reflexivity. }
+  assert (Hi1 : cinv ch1).
+  { unfold cinv. cbn [outbufs ch1 total_outbufs_len]. split; [|split].
+    - rewrite El in Hf. apply Forall_app in Hf as [Hf1 _].
+      apply Forall_app; split; [exact Hf1 | constructor; [exact H2 | constructor]].
+    - now rewrite lastw_app.
+    - fold ch1. rewrite Hc1, q_len_app, Ht. unfold q_len, lenZ. lia. }
+  destruct (flush_some_spec c ch1 ans Hc Hi1) as [S1 S2 S3 S4 S5 S6 S7 S8 S9].
+  cbn [w_chan w_flush w_stop]. split; [exact S2|]. split.
+  - rewrite <- Hc1. exact S3.
+  - destruct S1 as [-> | ->]; reflexivity.
+Qed.
+
 (* ------------------------------------------------------------ histories --- *)
 
 Definition wdata_ok (d : wdata) : Prop :=
   match d with WBytes _ => True | WFile rb => bok (RO rb) end.
 
 Definition cop_ok (p : cop) : Prop :=
-  match p with CWrite d _ => wdata_ok d | CFlush _ => True end.
+  match p with CWrite d _ => wdata_ok d | CFlush _ | CContinue _ => True end.
 
 Lemma written_by_file rb ans : written_by (CWrite (WFile rb) ans) = ro_abs rb.
 Proof. reflexivity. Qed.
@@ -343,7 +375,9 @@ Lemma cstep_spec c ch p : cfg_ok c -> cinv ch -> cop_ok p ->
   cabs ch ++ written_by p = s_wire (snd r) ++ cabs (fst r) /\
   (s_stop (snd r) = Done \/ s_stop (snd r) = SockRaised).
 Proof.
-  intros Hc Hi Hp. destruct p as [d ans | ans]; cbn [cstep].
+  intros Hc Hi Hp. destruct p as [d ans | ans | ans]; cbn [cstep].
+  3:{ destruct (send_continue_spec c ch ans Hc Hi) as (H1 & H2 & H3). cbv zeta in H1, H2, H3.
+      cbn [fst snd s_wire s_stop written_by]. rewrite H3. auto. }
   - unfold write_soon. destruct (w_truthy d) eqn:Et; cbn [negb].
     2:{ destruct d as [[|x data] | rb]; try discriminate. cbn. rewrite !app_nil_r. auto. }
     assert (Hw : exists ch1, (match d with
@@ -437,3 +471,23 @@ Proof.
   split; [|split; [apply S6; constructor | split; [apply S7; constructor | exact S8]]].
   unfold flush_result. rewrite Hs. unfold lenZ. destruct (f_wire (flush_some c ch ans)); cbn [length]; lia.
 Qed.
+
+(* An interim response is placed once, after everything written before send_continue() and before
+   everything written after it -- whatever buffers are queued (a file-wrapper buffer of the previous
+   response included), however the socket behaves. *)
+Theorem continue_in_order c ps1 ps2 ans : cfg_ok c -> Forall cop_ok ps1 -> Forall cop_ok ps2 ->
+  let r := crun c chan_new (ps1 ++ CContinue ans :: ps2) in
+  snd r ++ cabs (fst r) = concat (map written_by ps1) ++ continue_payload ++ concat (map written_by ps2).
+Proof.
+  intros Hc H1 H2.
+  assert (Hok : Forall cop_ok (ps1 ++ CContinue ans :: ps2)).
+  { apply Forall_app; split; [exact H1 | constructor; [exact I | exact H2]]. }
+  destruct (out_fifo_new c _ Hc Hok) as (E & _). cbv zeta in *. rewrite <- E.
+  rewrite map_app, concat_app. cbn [map concat written_by]. reflexivity.
+Qed.
+
+(* a deferred interim response while a file-wrapper response is still queued: it goes behind the file *)
+Example ex_continue_behind_file :
+  let r := crun ex_cfg chan_new [CWrite (WBytes [1;2]%N) []; CWrite (WFile ex_file) []; CContinue (Sent 1 :: repeat (Sent 100) 20)] in
+  snd r = [1;2;8;7;6;5]%N ++ continue_payload /\ cabs (fst r) = [].
+Proof. vm_compute. split; reflexivity. Qed.
